@@ -9,7 +9,7 @@ Full-strength statement (on the round model of `SgVerif/Sched/Model.lean`, addre
 where the generated inventory `Gen.inventory` lists an address-ordered container that the modelled round iterates):
 
     theorem run_addr_indep : ∀ (S : Sys) (α β : Addr) p fuel (s : St S),
-        runWith Cfg.current α p fuel s = runWith Cfg.current β p fuel s
+        runWith Cfg.preActivitiesFix α p fuel s = runWith Cfg.preActivitiesFix β p fuel s
 
 It is FALSE on the code as it is today: `ActorImpl::activities_` is a `std::set<ActivityImplPtr>` and a dying actor
 cancels its activities in address order, which decides the order in which the peers blocked on them are woken
@@ -20,9 +20,9 @@ Proved:
   * `run_addr_indep_partial` — for EVERY configuration, system, state, policy and fuel, under one explicit
     order-insensitivity hypothesis per address-ordered site the round iterates (the per-entry justifications of
     `accepted/JUSTIFICATIONS.md` for `activities_` and, before its fix, `daemons_`);
-  * `run_addr_indep_current` — the code as it is now needs only the hypothesis on `activities_` (the daemons fix removed the other);
-  * `run_addr_indep_repaired` — with props/C01/proposed_fix.diff (creation order) NO hypothesis is left: full strength.
-After the fix is applied: `Cfg.current` becomes `⟨false, false⟩`, `run_addr_indep_repaired` is the statement for the
+  * `run_addr_indep_current` — the code BEFORE fix b3a6606869 (`Cfg.preActivitiesFix`) needs only the hypothesis on `activities_` (the daemons fix removed the other);
+  * `run_addr_indep` (= `run_addr_indep_repaired`) — the code as it is in /repo NOW (activities ordered by creation rank, b3a6606869): NO hypothesis is left, full strength.
+After the fix is applied: `Cfg.preActivitiesFix` becomes `⟨false, false⟩`, `run_addr_indep_repaired` is the statement for the
 current code and `activities_counterexample` moves to the "kept for the record" class like the daemons one.
 `run_deterministic` (same inputs, same run) is definitional — `runWith` is a Lean function — and is not counted.
 -/
@@ -99,8 +99,13 @@ theorem run_addr_indep_partial (c : Cfg) (α β : Addr) (hA : c.activitiesByAddr
 
 /-- the code as it is now (daemons ordered by pid): only the hypothesis on `activities_` is needed -/
 theorem run_addr_indep_current (α β : Addr) (hA : ActivitiesInsensitive S) (p : Policy) (fuel : Nat) (s : St S) :
+    runWith Cfg.preActivitiesFix α p fuel s = runWith Cfg.preActivitiesFix β p fuel s :=
+  run_addr_indep_partial Cfg.preActivitiesFix α β (fun _ => hA) (fun h => by cases h) p fuel s
+
+/-- **full strength, current code** (= `run_addr_indep_repaired`): the trace does not depend on the address map -/
+theorem run_addr_indep (α β : Addr) (p : Policy) (fuel : Nat) (s : St S) :
     runWith Cfg.current α p fuel s = runWith Cfg.current β p fuel s :=
-  run_addr_indep_partial Cfg.current α β (fun _ => hA) (fun h => by cases h) p fuel s
+  run_addr_indep_partial Cfg.repaired α β (fun h => by cases h) (fun h => by cases h) p fuel s
 
 /-- with props/C01/proposed_fix.diff (activities ordered by creation rank): full strength, no hypothesis -/
 theorem run_addr_indep_repaired (α β : Addr) (p : Policy) (fuel : Nat) (s : St S) :
@@ -113,9 +118,9 @@ open Demo
 /-- TODAY's code: actor 0 ends while it owns the activities 10 and 11 on which actors 1 and 2 are blocked.  Under layout
     A maestro cancels 10 then 11 (run list 1, 2); under layout B 11 then 10 (run list 2, 1): the runs differ. -/
 theorem activities_counterexample :
-    (run Cfg.current layoutA 1 (st0 false [0])).toRun = [1, 2] ∧
-    (run Cfg.current layoutB 1 (st0 false [0])).toRun = [2, 1] ∧
-    (run Cfg.current layoutA 1 (st0 false [0])).k.log ≠ (run Cfg.current layoutB 1 (st0 false [0])).k.log := by decide
+    (run Cfg.preActivitiesFix layoutA 1 (st0 false [0])).toRun = [1, 2] ∧
+    (run Cfg.preActivitiesFix layoutB 1 (st0 false [0])).toRun = [2, 1] ∧
+    (run Cfg.preActivitiesFix layoutA 1 (st0 false [0])).k.log ≠ (run Cfg.preActivitiesFix layoutB 1 (st0 false [0])).k.log := by decide
 
 /-- BEFORE fix 7f02bcf969: two daemons (5 and 6) alive when the last regular actor has ended are killed in address
     order, so the order of their on_exit callbacks (the kernel log here) depends on the layout. -/
@@ -126,8 +131,8 @@ theorem daemons_counterexample :
 /-! ### non-vacuity and regression -/
 
 /-- the fixed daemons loop on the same instance: both layouts give the pid order -/
-example : (run Cfg.current layoutA 1 (st0 true [3])).k.log = [103, 205, 206] ∧
-    (run Cfg.current layoutB 1 (st0 true [3])).k.log = [103, 205, 206] := by decide
+example : (run Cfg.preActivitiesFix layoutA 1 (st0 true [3])).k.log = [103, 205, 206] ∧
+    (run Cfg.preActivitiesFix layoutB 1 (st0 true [3])).k.log = [103, 205, 206] := by decide
 
 /-- the repaired activities loop on the witness of `activities_counterexample`: creation order under both layouts -/
 example : (run Cfg.repaired layoutA 1 (st0 false [0])).toRun = [1, 2] ∧
